@@ -162,16 +162,26 @@ def run_unit(unit, repo=vgen.REPO, rlimit=None, use_cache=True, keep=None):
         cls = classify_msg(msg)
         r = region_of(line) if line else None
         label = None
+        labels = []
         if line:
-            mm = re.search(r'//\s*(O-[A-Za-z0-9_-]+)', lines[line - 1])
-            if mm:
-                label = mm.group(1)
+            cm = re.search(r'//(.*)$', lines[line - 1])
+            if cm:
+                labels = re.findall(r'\bO-[A-Za-z0-9_-]+!?', cm.group(1))
+            if not labels:
+                # e.g. a failed precondition: the label sits on the callee's requires clause
+                for sp in d.get('spans', []):
+                    if not sp.get('is_primary') and sp.get('line_start'):
+                        cm2 = re.search(r'//(.*)$', lines[sp['line_start'] - 1])
+                        if cm2:
+                            labels += re.findall(r'\bO-[A-Za-z0-9_-]+!?', cm2.group(1))
+            if labels:
+                label = labels[0].rstrip('!')
         fnn = enclosing_fn(line) if line else None
         mod = module_of(line) if line else None
         exits = [s for s in d.get('spans', []) if not s.get('is_primary')]
         entry = dict(msg=msg, line=line, text=(lines[line - 1].strip() if line else None), kind=cls, fn=fnn, module=mod,
                      region=(r.name if r else None), region_kind=(r.kind if r else 'prelude'), props=(r.props if r else None),
-                     label=label, secondary=[dict(line=s['line_start'], label=s.get('label'), text=lines[s['line_start'] - 1].strip()) for s in exits][:3])
+                     label=label, labels=labels, secondary=[dict(line=s['line_start'], label=s.get('label'), text=lines[s['line_start'] - 1].strip()) for s in exits][:3])
         if fnn == 'canary_must_fail':
             res['canary_failed'] = True
             continue
